@@ -46,13 +46,15 @@ type histStep struct {
 	V         view
 	Label     string
 	// observations
-	ImplOK        bool
-	ImplRM        *protocol.ResolutionModel
-	InputsIntact  bool
-	ParserSeen    *[2]int64 // (from, until) handed to the time validator by a non-batch Parse
-	ParserRefused bool
-	Cfg           protocol.Protocol
-	ByteLevel     bool
+	ImplOK           bool
+	ImplRM           *protocol.ResolutionModel
+	InputsIntact     bool
+	AgainDiffers     bool      // the same call repeated on the same applier instance gave another answer
+	ValidatorsMatter bool      // an applier whose parser has refusing request-time validators gave another answer
+	ParserSeen       *[2]int64 // (from, until) handed to the time validator by a non-batch Parse
+	ParserRefused    bool
+	Cfg              protocol.Protocol
+	ByteLevel        bool
 }
 
 type histCase struct {
@@ -139,9 +141,9 @@ func (s *histStep) coq() string {
 		}
 		byteLevel = fmt.Sprintf("(Some (%s, %s, %s))", coqProtocol(s.Cfg), urlOracle(tree), cStr(string(s.Bytes)))
 	}
-	return fmt.Sprintf("(mk_hstep (Build_anchored %s %s %s %s %s %s %s) %s %s %s %s %s)",
+	return fmt.Sprintf("(mk_hstep (Build_anchored %s %s %s %s %s %s %s) %s %s %s %s %s %s %s)",
 		coqType(s.Type), cZu(s.Time), cZu(s.Num), cZu(s.Ver), cStr(s.Canon), cStrList(s.Equiv), s.V.coq(),
-		impl, cBool(s.InputsIntact), seen, cBool(s.ParserRefused), byteLevel)
+		impl, cBool(s.InputsIntact), cBool(!s.AgainDiffers), cBool(!s.ValidatorsMatter), seen, cBool(s.ParserRefused), byteLevel)
 }
 
 func (c *histCase) coq() string {
@@ -158,7 +160,7 @@ func (c *histCase) jsonRecord() map[string]interface{} {
 		st := map[string]interface{}{
 			"type": s.Type, "time": s.Time, "number": s.Num, "version": s.Ver, "canonical": s.Canon,
 			"equivalent": s.Equiv, "request": string(s.Bytes), "label": s.Label, "impl_accepted": s.ImplOK,
-			"view": s.V, "inputs_intact": s.InputsIntact,
+			"view": s.V, "inputs_intact": s.InputsIntact, "repeat_same": !s.AgainDiffers, "validators_ignored": !s.ValidatorsMatter,
 		}
 		if s.ImplOK {
 			st["impl_state"] = s.ImplRM
@@ -276,13 +278,13 @@ func flipBitB64(s string, r *rand.Rand) string {
 // mutation names per operation type; "" = valid
 var commonSigned = []string{"", "", "", "sig_bitflip", "payload_reencoded", "key_subst_no_resign", "kid_added_no_resign",
 	"sig_truncated", "sig_extended", "sig_by_other_key", "key_subst_resigned", "key_subst_resigned_old_reveal", "reveal_substituted",
-	"reveal_unconfigured_alg", "reveal_truncated_digest", "extra_header", "alg_not_allowed", "alg_missing", "curve_not_allowed", "nonce_wrong_size",
+	"reveal_unconfigured_alg", "reveal_truncated_digest", "reveal_respelled", "extra_header", "alg_not_allowed", "alg_missing", "curve_not_allowed", "nonce_wrong_size",
 	"malformed_json", "missing_did_suffix", "missing_signed_data", "jws_two_parts", "jws_empty_sig", "payload_not_json",
 	"json_type_member_differs", "early", "late", "at_from", "at_until", "at_default_until", "after_default_until", "until_only", "inverted_window", "negative_until", "negative_from"}
 
 var deltaMuts = []string{"delta_substituted", "delta_no_patches", "delta_disabled_action", "delta_invalid_patch",
 	"delta_oversize", "delta_bad_update_commitment", "delta_missing", "delta_missing_hash_of_null", "compose_fails",
-	"signed_delta_hash_unconfigured_alg", "delta_hash_truncated"}
+	"signed_delta_hash_unconfigured_alg", "delta_hash_truncated", "delta_hash_respelled"}
 
 func mutationsFor(typ string) []string {
 	switch typ {
@@ -290,13 +292,14 @@ func mutationsFor(typ string) []string {
 		return []string{"", "", "malformed_json", "missing_suffix_data", "recovery_commitment_not_mh", "delta_hash_not_mh",
 			"delta_substituted", "delta_no_patches", "delta_disabled_action", "delta_invalid_patch", "delta_oversize",
 			"delta_bad_update_commitment", "delta_missing", "delta_missing_hash_of_null", "compose_fails",
-			"json_type_member_differs", "origin_object", "origin_string"}
+			"json_type_member_differs", "origin_object", "origin_string", "delta_hash_truncated", "delta_hash_respelled"}
 	case "update":
 		return append(append([]string{}, commonSigned...), deltaMuts...)
 	case "recover":
 		return append(append(append([]string{}, commonSigned...), deltaMuts...), "key_reuse", "recovery_commitment_not_mh", "origin_object")
 	case "deactivate":
-		return append(append([]string{}, commonSigned...), "signed_suffix_mismatch", "signed_suffix_missing", "recover_payload_replayed", "extra_signed_commitments")
+		return append(append([]string{}, commonSigned...), "signed_suffix_mismatch", "signed_suffix_missing", "recover_payload_replayed", "extra_signed_commitments",
+			"signed_reveal_own_outer_other", "signed_reveal_attacker", "signed_reveal_same")
 	}
 	return []string{""}
 }
@@ -349,6 +352,10 @@ func (d *didState) buildOp(typ, mut string, t uint64, cfg *protocol.Protocol) bu
 	if mut == "delta_hash_truncated" { // a well-formed multihash carrying only a prefix of the delta's digest
 		full := digest(code, jcs(delta))
 		deltaHash = b64(multihash(code, full[:[]int{0, 1, 16, len(full) - 1}[r.Intn(4)]]))
+		v.DeltaHashOK = false
+	}
+	if mut == "delta_hash_respelled" { // another string that decodes to the same octets: not the hash of the delta
+		deltaHash = respell(deltaHash, r)
 		v.DeltaHashOK = false
 	}
 	if mut == "signed_delta_hash_unconfigured_alg" || (mut == "delta_hash_not_mh" && typ == "create") {
@@ -486,6 +493,13 @@ func (d *didState) buildOp(typ, mut string, t uint64, cfg *protocol.Protocol) bu
 			payload["updateCommitment"] = commitmentOf(nextUpd.jwk(), code)
 			payload["deltaHash"] = deltaHash
 		}
+		switch mut {
+		case "signed_reveal_same": // the optional signed copy of the reveal value, equal to the request's: valid
+			payload["revealValue"] = revealOf(d.rec.jwk(), code)
+		case "signed_reveal_own_outer_other": // signed copy right, the request's own reveal value of another key: refused
+			payload["revealValue"] = revealOf(d.rec.jwk(), code)
+		case "signed_reveal_attacker": // handled below: another key signs, its reveal value only in the signed copy
+		}
 		if mut == "signed_suffix_missing" {
 			delete(payload, "didSuffix")
 			v.ParseOK, v.SuffixOK = false, false
@@ -524,6 +538,11 @@ func (d *didState) buildOp(typ, mut string, t uint64, cfg *protocol.Protocol) bu
 		case "key_subst_resigned_old_reveal":
 			signer, payloadKey = other, other
 			hdr = hdrFor(other)
+			v.ParseOK = false
+		case "signed_reveal_attacker": // another key signs and carries its own reveal value in the signed data; the request keeps the owner's
+			signer, payloadKey = other, other
+			hdr = hdrFor(other)
+			payload["revealValue"] = revealOf(other.jwk(), code)
 			v.ParseOK = false
 		case "curve_not_allowed":
 			var keep []string
@@ -618,7 +637,7 @@ func (d *didState) buildOp(typ, mut string, t uint64, cfg *protocol.Protocol) bu
 		op.signedData = strings.Join(parts, ".")
 		op.reveal = revealOf(revealKey.jwk(), code)
 		switch mut {
-		case "reveal_substituted":
+		case "reveal_substituted", "signed_reveal_own_outer_other":
 			op.reveal = revealOf(d.newKey().jwk(), code)
 			v.ParseOK = false
 		case "reveal_unconfigured_alg":
@@ -627,6 +646,9 @@ func (d *didState) buildOp(typ, mut string, t uint64, cfg *protocol.Protocol) bu
 		case "reveal_truncated_digest": // a well-formed multihash whose digest is a proper prefix of the real one
 			full := digest(code, jcs(revealKey.jwk()))
 			op.reveal = b64(multihash(code, full[:[]int{0, 1, 16, len(full) - 1}[r.Intn(4)]]))
+			v.ParseOK = false
+		case "reveal_respelled": // decodes to the right octets, is not the reveal value
+			op.reveal = respell(op.reveal, r)
 			v.ParseOK = false
 		case "missing_did_suffix":
 			op.didSuffix = ""
@@ -682,7 +704,30 @@ func (d *didState) buildOp(typ, mut string, t uint64, cfg *protocol.Protocol) bu
 
 func b64dec(s string) ([]byte, error) { return b64raw.DecodeString(s) }
 
+// respell returns another string that the lenient base64url decoder maps to the same octets:
+// spare trailing bits changed when the length leaves any, otherwise a line feed inserted.
+func respell(h string, r *rand.Rand) string {
+	for _, m := range malformedHashes(h, r) {
+		if m[0] == "trailing-bits" {
+			return m[1]
+		}
+	}
+	return h[:5] + "\n" + h[5:]
+}
+
 // ---- running a history through the implementation ----------------------------------------------
+
+type refuseTime struct{}
+
+func (refuseTime) Validate(from, until int64) error {
+	return fmt.Errorf("request-time validator: refused")
+}
+
+type refuseOrigin struct{}
+
+func (refuseOrigin) Validate(obj interface{}) error {
+	return fmt.Errorf("request-time validator: refused")
+}
 
 type recValidator struct{ seen *[2]int64 }
 
@@ -704,11 +749,18 @@ func runHistory(c *histCase, cfgs []protocol.Protocol) {
 	unpub := []*operation.AnchoredOperation{{TransactionNumber: 201}}
 	rm := &protocol.ResolutionModel{PublishedOperations: pub, UnpublishedOperations: unpub}
 	composer := doccomposer.New()
+	// one applier per protocol configuration for the whole history: an applier that carries state
+	// from one call to the next must still behave as the (stateless) specification says
+	appliers := map[string]*operationapplier.Applier{}
 	for i, s := range c.Steps {
 		cfg := cfgs[i]
 		s.Cfg = cfg
-		parser := operationparser.New(cfg)
-		applier := operationapplier.New(cfg, parser, composer)
+		key := fmt.Sprintf("%+v", cfg)
+		applier := appliers[key]
+		if applier == nil {
+			applier = operationapplier.New(cfg, operationparser.New(cfg), composer)
+			appliers[key] = applier
+		}
 		aop := &operation.AnchoredOperation{
 			Type: operation.Type(s.Type), OperationRequest: s.Bytes, TransactionTime: s.Time, TransactionNumber: s.Num,
 			ProtocolVersion: s.Ver, CanonicalReference: s.Canon, EquivalentReferences: s.Equiv,
@@ -721,6 +773,15 @@ func runHistory(c *histCase, cfgs []protocol.Protocol) {
 			s.InputsIntact = false // a refused operation must yield no state
 		}
 		s.ImplOK = err == nil
+		// the same operation applied again to the same state by the same applier instance: same answer
+		res2, err2 := applier.Apply(aop, rm)
+		s.AgainDiffers = (err == nil) != (err2 == nil) || (err == nil && deepSnapshot(res) != deepSnapshot(res2))
+		// an applier whose parser carries request-time validators that refuse everything: anchored
+		// operations are judged by their anchoring time only, so the answer must be the same
+		strict := operationapplier.New(cfg, operationparser.New(cfg, operationparser.WithAnchorTimeValidator(refuseTime{}),
+			operationparser.WithAnchorOriginValidator(refuseOrigin{})), composer)
+		res3, err3 := strict.Apply(aop, rm)
+		s.ValidatorsMatter = (err == nil) != (err3 == nil) || (err == nil && deepSnapshot(res) != deepSnapshot(res3))
 		if err == nil {
 			s.ImplRM = res
 			rm = res
@@ -757,7 +818,7 @@ func mutationPool(focus, typ string) []string {
 		for _, m := range muts {
 			if m == "" || strings.HasPrefix(m, "sig_") || strings.HasPrefix(m, "key_") || strings.HasPrefix(m, "reveal_") ||
 				strings.HasPrefix(m, "delta_substituted") || m == "delta_hash_truncated" || strings.Contains(m, "header") || strings.HasPrefix(m, "alg_") ||
-				m == "payload_reencoded" || m == "kid_added_no_resign" || strings.HasPrefix(m, "signed_suffix_") || m == "recover_payload_replayed" || strings.HasPrefix(m, "jws_") {
+				m == "payload_reencoded" || m == "kid_added_no_resign" || strings.HasPrefix(m, "signed_suffix_") || strings.HasPrefix(m, "signed_reveal_") || m == "delta_hash_respelled" || m == "recover_payload_replayed" || strings.HasPrefix(m, "jws_") {
 				pool = append(pool, m)
 			}
 		}
